@@ -309,6 +309,111 @@ func c08Contexts(x, y *term, partner *term) *failure {
 	return nil
 }
 
+// altSpelling: the other member of the term's spelling pair, or nil
+func altSpelling(t *term) *term {
+	if t.isRef || t.caseMod >= 0 {
+		return nil
+	}
+	var a *term
+	switch {
+	case t.plus && t.suffix == "":
+		a = mkTerm(t.base, "-or-later", false, t.exc, -1)
+	case !t.plus && t.suffix == "-or-later":
+		a = mkTerm(t.base, "", true, t.exc, -1)
+	case !t.plus && t.suffix == "":
+		a = mkTerm(t.base, "-only", false, t.exc, -1)
+	case !t.plus && t.suffix == "-only":
+		a = mkTerm(t.base, "", false, t.exc, -1)
+	default:
+		return nil
+	}
+	if !implValid(a.text) || !implValid(t.text) {
+		return nil
+	}
+	return a
+}
+
+func c08TreeSubstitution() *failure {
+	c := genTreeCase(4, 5)
+	// lists that hold a term together with its exception-toggled sibling
+	if rng.Intn(2) == 0 {
+		t := c.terms[rng.Intn(len(c.terms))]
+		if !t.isRef {
+			sib := *t
+			if t.exc == "" {
+				sib.exc = pick(tblExceptions)
+			} else {
+				sib.exc = ""
+			}
+			sib.build()
+			if implValid(sib.text) {
+				c.allowed = append(c.allowed, t.text, sib.text)
+				rng.Shuffle(len(c.allowed), func(a, b int) { c.allowed[a], c.allowed[b] = c.allowed[b], c.allowed[a] })
+			}
+		}
+	}
+	idx := rng.Intn(len(c.terms))
+	alt := altSpelling(c.terms[idx])
+	if alt == nil {
+		count("tree_no_alternative_spelling")
+		return nil
+	}
+	orig := c.terms[idx].text
+	base := implSat(c.text, c.allowed)
+	// expression side: the same rendering with the alternative spelling at that term
+	tt := texts(c.terms)
+	tt[idx] = alt.text
+	e2 := strings.Replace(c.text, orig, alt.text, -1)
+	if strings.Count(c.text, orig) != countLeaves(c.t, idx) {
+		e2 = c.t.render(tt, "", false, 2, false) // the text is ambiguous as a substring: re-render instead
+		base = implSat(c.t.render(texts(c.terms), "", false, 2, false), c.allowed)
+	}
+	res.Evaluations++
+	count("tree_expr_side")
+	r2 := implSat(e2, c.allowed)
+	if base.String() != r2.String() {
+		return &failure{Stream: "oracle", What: fmt.Sprintf("re-spelling %s as %s inside the expression changed Satisfies", show(orig), show(alt.text)),
+			Case: &kase{Expr: c.text, ExprHex: hx(c.text), Allowed: c.allowed, Extra: map[string]string{"other_expr": e2}}, Impl: r2.String(), Expected: base.String()}
+	}
+	// list side: every entry equal to that term's text re-spelled
+	l2 := append([]string{}, c.allowed...)
+	n := 0
+	for i, a := range l2 {
+		if a == orig {
+			l2[i] = alt.text
+			n++
+		}
+	}
+	if n == 0 {
+		l2 = append(l2, alt.text)
+		c.allowed = append(c.allowed, orig)
+		base = implSat(c.text, c.allowed)
+	}
+	res.Evaluations++
+	count("tree_list_side")
+	r3 := implSat(c.text, l2)
+	if r3.err == nil && r3.panicv == nil {
+		nontrivial("tree|" + orig + "|" + alt.text)
+	}
+	base2 := implSat(c.text, c.allowed)
+	if base2.String() != r3.String() {
+		return &failure{Stream: "oracle", What: fmt.Sprintf("re-spelling %s as %s inside the allowed list changed Satisfies", show(orig), show(alt.text)),
+			Case: &kase{Expr: c.text, ExprHex: hx(c.text), Allowed: c.allowed, Extra: map[string]string{"other_expr": c.text, "other_list": hxl(l2)}}, Impl: r3.String(), Expected: base2.String()}
+	}
+	_ = base
+	return nil
+}
+
+func countLeaves(t *tree, idx int) int {
+	n := 0
+	for _, l := range t.leaves(nil) {
+		if l == idx {
+			n++
+		}
+	}
+	return n
+}
+
 func sameFamilyIDs(id string) []string {
 	if p, ok := tablePos(id); ok {
 		var out []string
@@ -390,6 +495,16 @@ func init() {
 			}
 		}
 		sample(map[string]interface{}{"pair": []string{"GPL-2.0+", "GPL-2.0-or-later"}, "contexts": []string{"expr-alone", "list-alone", "expr-in-and", "expr-in-or", "list-among"}})
+		// "at any position of the expression or of the allowed list": generated trees and lists (with sibling terms that
+		// differ only by exception / '+' / version), one term re-spelled, everything else untouched
+		for i := 0; i < scale(4000, 60000); i++ {
+			if f := c08TreeSubstitution(); f != nil {
+				fail(*f)
+			}
+			if len(corrQ) > 50000 {
+				flushCorr()
+			}
+		}
 	}
 	replays["C08"] = func(k *kase) *failure {
 		if k.Extra == nil || k.Extra["other_expr"] == "" {
